@@ -13,9 +13,22 @@ _OPAQUE = {r"len\(self\.shank_info\[sh\]\['chns'\]\)": 'n_chns_len',
            r"self\.shank_info\[sh\]\['ap_file'\]\.stat\(\)\.st_size": 'ap_size',
            r"int\(sh\[-1\]\)": 'shank_no'}
 
+_EV_R = [
+    [r"^meta_shank\['acqApLfSy'\]\[0\] = (.*)$", 'acq0', [r'\1'], 'stmt'],
+    [r"^meta_shank\['snsApLfSy'\]\[0\] = (.*)$", 'sns0', [r'\1'], 'stmt'],
+    [r"^meta_shank\['nSavedChans'\] = (.*)$", 'nsaved', [r'\1'], 'stmt'],
+    [r"^meta_shank\['fileSizeBytes'\] = (.*)$", 'size', [r'\1'], 'stmt'],
+    [r"^meta_shank\['snsSaveChanSubset'\] = f'0:\{(.*)\}'$", 'subset_to', [r'\1'], 'stmt'],
+    [r"^meta_shank\.pop\(f'\{self\.np_version\}_shank'\)$", 'pop_shank', []],
+    [r"^meta_shank\.pop\('snsSaveChanSubset_orig'\)$", 'pop_orig', []],
+]
+
 SPEC = {
     'items': [{'name': 'ap_meta', 'module': 'neuropixel.py', 'function': 'NP2Converter._writemetadata_ap', 'kind': 'events',
-               'loop_body': True, 'opaque': _OPAQUE, 'events': _EV, 'params': ['n_chns_len', 'ap_size', 'shank_no']}],
-    'theorems': ['IblVerif.Tie.C03.ap_meta_eq'],
-    'covers': "NP2Converter._writemetadata_ap: the metadata keys one shank's AP header gets (each from that shank's own channel list / file)",
+               'loop_body': True, 'opaque': _OPAQUE, 'events': _EV, 'params': ['n_chns_len', 'ap_size', 'shank_no']},
+              {'name': 'recon_meta', 'module': 'neuropixel.py', 'function': 'NP2Reconstructor.write_metadata', 'kind': 'events',
+               'assume': {r'meta_file\.exists\(\)': False}, 'opaque': {r'self\.save_file\.stat\(\)\.st_size': 'save_size'},
+               'events': _EV_R, 'params': ['self_nch', 'save_size']}],
+    'theorems': ['IblVerif.Tie.C03.ap_meta_eq', 'IblVerif.Tie.C03.recon_meta_eq'],
+    'covers': "NP2Converter._writemetadata_ap: the metadata keys one shank's AP header gets (each from that shank's own channel list / file); NP2Reconstructor.write_metadata (keys rewritten / removed for the re-assembled file)",
 }
